@@ -39,4 +39,5 @@ func vAfterFunc(d time.Duration, f func())      { panic("intrinsic") }
 func vGuardedBy(mu *sync.RWMutex, data *map[string]any) { panic("intrinsic") }
 func vTimers() int                              { panic("intrinsic") }
 func vSections(mu *sync.RWMutex) int            { panic("intrinsic") }
+func vPick(idx int, opts ...any) any             { panic("intrinsic") }
 func vFail(msg string)                          { panic("intrinsic") }
